@@ -1,5 +1,5 @@
 (* C20 — a rejected call leaves no trace in later files. Statements only. *)
-From DV Require Import Model.ApiDispatch Proofs.BuilderP.
+From DV Require Import Model.ApiDispatch Proofs.BuilderP Proofs.RegP Proofs.VisP.
 
 (* same_content st st' (Proofs/BuilderP.v): the objects, the registration list of every existing set, the no-format
    data, the data dictionary and the header of every logical file are unchanged; sets that did not exist before are
@@ -47,5 +47,29 @@ Example C20_set_position_repaired :
   /\ map (fun f => map fst (l_reg f)) (b_lfs st1) = map (fun f => map fst (l_reg f)) (b_lfs st2).
 Proof. vm_compute. repeat split. discriminate. Qed.
 
+(* same_content leaves the REGISTRIES out: a rejected call may register sets. What it can register is invisible. `vis st r`
+   (printed below) lists, in registry order, the entries of r whose sets hold items — the sets that are written, in the order
+   they are written (sets without items give no record and have no position). A rejected add_* of any type — rejected at any
+   point after the set look-up — leaves `vis` of its own logical file and of every other logical file unchanged. The one
+   hypothesis excludes the sharing of known finding D12: a set of that (type, name) which already holds items in the physical
+   registry must be this logical file's. *)
+Print vis.
+Theorem C20_reject_invisible : forall hc st l ty name sn org dflt kw ds cast st' e f,
+  add_common hc st l ty name sn org dflt kw ds cast = (st', Rejected e) ->
+  Inv_reg st -> lf_at st l = Some f ->
+  (forall sid, reg_find (b_phys st) ty (norm_name sn) = Some sid -> set_empty st sid = false -> reg_find (l_reg f) ty (norm_name sn) = Some sid) ->
+  (exists f', lf_at st' l = Some f' /\ vis st' (l_reg f') = vis st (l_reg f))
+  /\ (forall l2 f2, l2 <> l -> lf_at st l2 = Some f2 -> lf_at st' l2 = Some f2 /\ vis st' (l_reg f2) = vis st (l_reg f2)).
+Proof. exact add_common_reject_invisible. Qed.
+
+(* Inv_reg holds in every reachable state, and the logical files' registries are sub-registries of the physical one *)
+Theorem C20_registries_reachable : forall ops ps,
+  let st := bstate_of (run_ops ps b_init ops) in Inv_reg st /\ Inv_sub st.
+Proof.
+  intros ops ps. split; [apply run_ops_inv_reg, inv_reg_init | apply run_ops_inv_sub; [apply inv_reg_init | apply inv_sub_init]].
+Qed.
+
 Print Assumptions C20_reject.
 Print Assumptions C20_copy_numbers.
+Print Assumptions C20_reject_invisible.
+Print Assumptions C20_registries_reachable.
